@@ -371,6 +371,29 @@ theorem C01_jacobian_adj (m n : Nat) (J : Nat → Nat → K) (jvp G : V K → V 
     (hG : ∀ ct, ∀ j < n, G ct j = ∑ i ∈ range m, J i j * ct i) : IsAdj (Op.jacobian m n jvp G) :=
   jacobian_isAdj m n J jvp G hj hG
 
+/-! ### nested views -/
+
+/-- views of views of ANY operator built by the generic constructions (no closed form needed — generic LinearOperator,
+    CircularConvolve, …; complex dtype branch of `.T`): the closures are identical as functions —
+    `A.T.T = A`, `A.H.H = A`, `A.conj().conj() = A`, `A.T.H = A.H.T = A.conj()`, `A.conj().T = A.T.conj() = A.H`,
+    `A.conj().H = A.H.conj() = A.T`, `(B @ A).H = A.H @ B.H`, `(B @ A).T = A.T @ B.T`, `(B @ A).conj() = B.conj() @ A.conj()`;
+    hence every nested view of an adjoint pair is an adjoint pair with the matrix the view algebra predicts -/
+theorem C01_view_algebra (A B : Op K) :
+    Op.tr true (Op.tr true A) = A ∧ Op.herm (Op.herm A) = A ∧ Op.cj (Op.cj A) = A
+      ∧ Op.herm (Op.tr true A) = Op.cj A ∧ Op.tr true (Op.herm A) = Op.cj A
+      ∧ Op.tr true (Op.cj A) = Op.herm A ∧ Op.cj (Op.tr true A) = Op.herm A
+      ∧ Op.herm (Op.cj A) = Op.tr true A ∧ Op.cj (Op.herm A) = Op.tr true A
+      ∧ Op.herm (Op.comp B A) = Op.comp (Op.herm A) (Op.herm B)
+      ∧ Op.tr true (Op.comp B A) = Op.comp (Op.tr true A) (Op.tr true B)
+      ∧ Op.cj (Op.comp B A) = Op.comp (Op.cj B) (Op.cj A) :=
+  ⟨tr_tr A, herm_herm A, cj_cj A, tr_herm A, herm_tr A, cj_tr A, tr_cj A, cj_herm A, herm_cj A, comp_herm B A, comp_tr B A,
+    comp_cj B A⟩
+
+/-- `A.H.gram_op` applies `A Aᴴ` (both closures) -/
+theorem C01_gram_of_herm (A : Op K) :
+    (Op.gram (Op.herm A)).eval = (Op.comp A (Op.herm A)).eval ∧ (Op.gram (Op.herm A)).adj = (Op.comp A (Op.herm A)).eval :=
+  herm_gram A
+
 /-! ### index maps -/
 
 /-- an operator that reads `x` along ANY index map `φ` (0 where out of range) — `Slice`, `Crop`, `Transpose`, `Reshape`,
@@ -484,5 +507,7 @@ example (J : Nat → Nat → K) :
     (∀ v : V K, ∀ i < 2, mulVec 3 J v i = ∑ j ∈ range 3, J i j * v j)
       ∧ ∀ ct : V K, ∀ j < 3, mulVec 2 (fun j i => J i j) ct j = ∑ i ∈ range 2, J i j * ct i :=
   ⟨fun v i _ => by simp [mulVec, sumTo_eq], fun ct j _ => by simp [mulVec, sumTo_eq]⟩
+
+-- `C01_view_algebra`, `C01_gram_of_herm` have no hypotheses (identities of closures for every operator record)
 
 end Scico.Props.C01
